@@ -285,6 +285,8 @@ fn scenario_routing(args: &Args, report: &mut Report) {
             let recorded = w.slots[s].announced.get(&hash).copied();
             let refused_second = recorded.map(|p| p != pid).unwrap_or(false);
             let use_binary = r.chance(1, 4);
+            // read before sending: the tracker may have processed the refusal and the closure before we look again
+            let handled_before_send = counter("ws.swarm.connection_closed_handled");
             let c = w.slots[s].conn.as_mut().unwrap();
             let sent = if use_binary { c.send_binary(msg.as_bytes()) } else { c.send_text(&msg) };
             if sent.is_err() {
@@ -294,7 +296,7 @@ fn scenario_routing(args: &Args, report: &mut Report) {
             report.eval();
             if refused_second {
                 // refused with an error; the tracker drops the connection, its entries disappear
-                let handled0 = counter("ws.swarm.connection_closed_handled");
+                let handled0 = handled_before_send;
                 let involved: BTreeSet<usize> = w.slots[s].announced.keys().map(|h| h[0] as usize % ww).collect();
                 let t0 = Instant::now();
                 while t0.elapsed() < Duration::from_millis(3000) && !w.slots[s].conn.as_ref().unwrap().closed {
@@ -329,7 +331,7 @@ fn scenario_routing(args: &Args, report: &mut Report) {
                         fail!("ws.live.unexpected_message", "routing", format!("{}: connection {} received {:?}", desc, slot, m));
                     }
                 }
-                if !vcore::net::wait_until(3000, || counter("ws.swarm.connection_closed_handled") >= handled0 + involved.len() as u64) {
+                if !vcore::net::wait_until(15_000, || counter("ws.swarm.connection_closed_handled") >= handled0 + involved.len() as u64) {
                     fail!("ws.live.close_not_processed", "ownership", format!("{}: swarm workers did not process the connection's closure", desc));
                 }
                 w.model.close(me);
@@ -582,10 +584,10 @@ fn scenario_routing(args: &Args, report: &mut Report) {
                 c.reset();
             }
             report.eval();
-            if !vcore::net::wait_until(4000, || counter("ws.cleanup_done") > cleanup0) {
+            if !vcore::net::wait_until(15_000, || counter("ws.cleanup_done") > cleanup0) {
                 fail!("ws.live.close_not_processed", "ownership", format!("{}: the socket worker never ran its clean-up for this connection", desc));
             }
-            if !vcore::net::wait_until(3000, || counter("ws.swarm.connection_closed_handled") >= handled0 + involved.len() as u64) {
+            if !vcore::net::wait_until(15_000, || counter("ws.swarm.connection_closed_handled") >= handled0 + involved.len() as u64) {
                 fail!("ws.live.close_not_processed", "ownership", format!("{}: swarm workers did not process the closure", desc));
             }
             let removed = w.model.close(me);
